@@ -1,1 +1,273 @@
--- property theorems for C01 (stub)
+/-
+C01 — garbage collection is transparent and never frees a reachable object.  Property theorems only.
+Model: JanetModel/GC/Model.lean (mirrors src/core/gc.c); tie: Gen/GC.lean (regenerated) + harness/C01 (heap dumps).
+-/
+import JanetModel.GC.Collect
+import JanetModel.GC.Mutator
+
+namespace JanetModel.Props.C01
+open JanetModel.GC Std
+
+/-- The mark phase never runs out of the model's fuel and leaves nothing spilled: the recursion (bounded by the depth
+counter, spilling to the root list) and the drain loop terminate for every heap and every depth limit. -/
+theorem mark_terminates (h : Heap) (D : Nat) (hD : 1 ≤ D) : (mark D h).stuck = false ∧ (mark D h).spill = [] :=
+  ⟨(mark_inv h D hD).1.stuck, (mark_inv h D hD).2⟩
+
+/-- The marked set is exactly the set of reachable blocks — for every depth limit `D ≥ 1`, in particular independent of
+`D`: values spilled to the root list when the counter hits 0 are not lost. -/
+theorem mark_eq_reachable (h : Heap) (D : Nat) (hD : 1 ≤ D) (i : Id) :
+    (mark D h).marked.contains i = true ↔ Reachable h i :=
+  ⟨mark_sound h D hD i, mark_complete h D hD i⟩
+
+/-- instance used by the implementation: D = JANET_RECURSION_GUARD (regenerated from janet.h) -/
+theorem mark_eq_reachable_impl (h : Heap) (i : Id) :
+    (mark Gen.GC.recursionGuard h).marked.contains i = true ↔ Reachable h i :=
+  mark_eq_reachable h _ (by decide) i
+
+/-- A collection keeps every reachable block, with its kind and strong references intact. -/
+theorem collect_keeps_reachable (h : Heap) (D : Nat) (hD : 1 ≤ D) (i : Id) (r : Reachable h i) :
+    ∃ o o', h.get i = some o ∧ (collect D h).get i = some o' ∧ o'.kind = o.kind ∧ o'.strong = o.strong := by
+  have hm := mark_complete h D hD i r
+  have hs := r.isSome
+  cases hx : h.get i with
+  | none => rw [hx] at hs; cases hs
+  | some o =>
+    refine ⟨o, clearWeak (mark D h).marked o, rfl, ?_, rfl, rfl⟩
+    rw [collect_get, hx]; simp [hm]
+
+/-- Only unreachable blocks are freed. -/
+theorem collect_frees_only_unmarked (h : Heap) (D : Nat) (hD : 1 ≤ D) (i : Id) (o : Obj) (hx : h.get i = some o)
+    (hfreed : (collect D h).get i = none) : (mark D h).marked.contains i = false ∧ ¬ Reachable h i := by
+  rw [collect_get, hx] at hfreed
+  by_cases c : (mark D h).marked.contains i = true
+  · simp [c] at hfreed
+  · exact ⟨by simpa using c, fun r => c (mark_complete h D hD i r)⟩
+
+/-- and every unreachable block is freed (no floating garbage in the model) -/
+theorem collect_frees_unreachable (h : Heap) (D : Nat) (hD : 1 ≤ D) (i : Id) (hn : ¬ Reachable h i) :
+    (collect D h).get i = none := by
+  rw [collect_get]
+  cases hx : h.get i with
+  | none => rfl
+  | some o =>
+    have : (mark D h).marked.contains i = false := by
+      by_cases c : (mark D h).marked.contains i = true
+      · exact absurd (mark_sound h D hD i c) hn
+      · simpa using c
+    simp [this]
+
+/-- After a collection no surviving block refers to a freed block: every strong reference that pointed to a block still
+points to a block, and every weak slot that is left refers only to survivors (dead weak slots are removed). -/
+theorem collect_closed (h : Heap) (D : Nat) (hD : 1 ≤ D) (i : Id) (o' : Obj) (hx : (collect D h).get i = some o') :
+    (∀ e ∈ outEdges o', (h.get e.tgt).isSome → ((collect D h).get e.tgt).isSome) ∧
+    (∀ en ∈ o'.entries, ∀ w ∈ en.weak, ((collect D h).get w).isSome) := by
+  rw [collect_get] at hx
+  cases hg : h.get i with
+  | none => rw [hg] at hx; cases hx
+  | some o =>
+    rw [hg] at hx
+    by_cases c : (mark D h).marked.contains i = true
+    · simp only [c, if_true, Option.some.injEq] at hx
+      subst hx
+      have ri : Reachable h i := mark_sound h D hD i c
+      constructor
+      · intro e he hs
+        have rt : Reachable h e.tgt := Reachable.step ri hg (mem_outEdges_clearWeak he) hs
+        obtain ⟨_, _, _, h2, _, _⟩ := collect_keeps_reachable h D hD e.tgt rt
+        simp [h2]
+      · intro en hen w hw
+        simp only [clearWeak, List.mem_filter, List.all_eq_true] at hen
+        have mw := hen.2 w hw
+        have rw' : Reachable h w := mark_sound h D hD w mw
+        obtain ⟨_, _, _, h2, _, _⟩ := collect_keeps_reachable h D hD w rw'
+        simp [h2]
+    · simp [c] at hx
+
+/-- **Transparency.**  For every program of the path-addressed mutator, every collection schedule (any subset of the
+safepoints) and every initial heap, the observations equal those of the run that never collects. -/
+theorem gc_transparent (D : Nat) (hD : 1 ≤ D) (prog : List Step) (sched : Nat → Bool) (h : Heap) :
+    run D prog sched 0 h = run D prog (fun _ => false) 0 h :=
+  run_agree D hD sched prog 0 h h (Agree.refl h)
+
+/-- the same from any safepoint counter, in particular for "collect at every safepoint" -/
+theorem gc_transparent_always (prog : List Step) (h : Heap) :
+    run Gen.GC.recursionGuard prog (fun _ => true) 0 h = run Gen.GC.recursionGuard prog (fun _ => false) 0 h :=
+  gc_transparent _ (by decide) prog _ h
+
+/-! ### non-vacuity: concrete heaps -/
+
+/-- bounding the reachable set of a concrete heap by a finite candidate set (decidable side conditions) -/
+theorem reachable_subset (h : Heap) (S : List Id) (hr : ∀ e ∈ h.roots, e.tgt ∈ S)
+    (hc : ∀ i ∈ S, ∀ e ∈ (match h.get i with | some o => outEdges o | none => []), e.tgt ∈ S) (i : Id)
+    (r : Reachable h i) : i ∈ S := by
+  induction r with
+  | root he _ => exact hr _ he
+  | step _ ho he _ ih =>
+    have := hc _ ih
+    simp only [ho] at this
+    exact this _ he
+
+/-- a cycle 0 ⇄ 1 hanging off the root fiber, and an unreferenced block 2 -/
+def cyclicHeap : Heap := Heap.ofList
+  [Obj.array false [.ref 1, .imm], Obj.array false [.ref 0], Obj.array false [.ref 0]] [⟨true, 0⟩]
+
+example : Reachable cyclicHeap 1 ∧ ¬ Reachable cyclicHeap 2 ∧
+    (mark 1 cyclicHeap).marked.contains 1 = true ∧ (collect 1 cyclicHeap).get 2 = none := by
+  have r0 : Reachable cyclicHeap 0 := Reachable.root (e := ⟨true, 0⟩) (by decide) (by decide)
+  have r1 : Reachable cyclicHeap 1 :=
+    Reachable.step (o := Obj.array false [.ref 1, .imm]) (e := ⟨true, 1⟩) r0 (by decide) (by decide) (by decide)
+  have n2 : ¬ Reachable cyclicHeap 2 := fun r => by
+    have := reachable_subset cyclicHeap [0, 1] (by decide) (by decide) 2 r
+    simp at this
+  exact ⟨r1, n2, (mark_eq_reachable _ 1 (Nat.le_refl 1) 1).mpr r1, collect_frees_unreachable _ 1 (Nat.le_refl 1) 2 n2⟩
+
+/-- an array (5) reachable ONLY through the environment (3) of a closure (1) whose fiber (4) has died: the collector
+detaches the environment, keeps the captured array and frees the dead fiber -/
+def deadFiberHeap : Heap := Heap.ofList
+  [ Obj.fiber .imm [] [⟨none, none, [.ref 1]⟩] none none none [] none,     -- 0 root fiber, slot holds the closure
+    Obj.function (some 2) [3],                                              -- 1 closure
+    Obj.funcdef [] [] none none [],                                         -- 2 its funcdef
+    Obj.funcenv (some 4) true [.ref 5],                                     -- 3 env on the stack of finished fiber 4
+    Obj.fiber .imm [] [⟨none, none, [.ref 5]⟩] none none none [] none,     -- 4 the dead fiber
+    Obj.array false [.imm] ]                                                -- 5 captured array
+  [⟨false, 0⟩]
+
+example : Reachable deadFiberHeap 5 ∧ ¬ Reachable deadFiberHeap 4 ∧
+    ((collect Gen.GC.recursionGuard deadFiberHeap).get 5).isSome ∧ (collect Gen.GC.recursionGuard deadFiberHeap).get 4 = none := by
+  have r0 : Reachable deadFiberHeap 0 := Reachable.root (e := ⟨false, 0⟩) (by decide) (by decide)
+  have r1 : Reachable deadFiberHeap 1 :=
+    Reachable.step (o := Obj.fiber .imm [] [⟨none, none, [.ref 1]⟩] none none none [] none) (e := ⟨true, 1⟩) r0 (by decide) (by decide) (by decide)
+  have r3 : Reachable deadFiberHeap 3 :=
+    Reachable.step (o := Obj.function (some 2) [3]) (e := ⟨false, 3⟩) r1 (by decide) (by decide) (by decide)
+  have r5 : Reachable deadFiberHeap 5 :=
+    Reachable.step (o := Obj.funcenv (some 4) true [.ref 5]) (e := ⟨true, 5⟩) r3 (by decide) (by decide) (by decide)
+  have n4 : ¬ Reachable deadFiberHeap 4 := fun r => by
+    have := reachable_subset deadFiberHeap [0, 1, 2, 3, 5] (by decide) (by decide) 4 r
+    simp at this
+  have hD : 1 ≤ Gen.GC.recursionGuard := by decide
+  obtain ⟨_, _, _, h5, _, _⟩ := collect_keeps_reachable deadFiberHeap Gen.GC.recursionGuard hD 5 r5
+  exact ⟨r5, n4, by rw [h5]; rfl, collect_frees_unreachable _ _ hD 4 n4⟩
+
+/-- a weak-key table (1) with a live key (2) and a dead key (4): the dead slot is dropped by the sweep, the live one kept,
+and nothing that survives refers to a freed block -/
+def weakHeap : Heap := Heap.ofList
+  [ Obj.fiber .imm [] [⟨none, none, [.ref 1, .ref 2]⟩] none none none [] none,   -- 0 root fiber holds the table and key 2
+    Obj.table true false [(.ref 2, .ref 3), (.ref 4, .ref 5)] none,                -- 1 weak-key table
+    Obj.leaf Gen.GC.memString, Obj.leaf Gen.GC.memString,                          -- 2 live key, 3 its value
+    Obj.leaf Gen.GC.memString, Obj.leaf Gen.GC.memString ]                         -- 4 dead key, 5 its value
+  [⟨false, 0⟩]
+
+example : ¬ Reachable weakHeap 4 ∧ (collect Gen.GC.recursionGuard weakHeap).get 4 = none ∧
+    ∃ o', (collect Gen.GC.recursionGuard weakHeap).get 1 = some o' ∧ o'.entries = [⟨[2], [⟨true, 3⟩]⟩] := by
+  have r0 : Reachable weakHeap 0 := Reachable.root (e := ⟨false, 0⟩) (by decide) (by decide)
+  have r1 : Reachable weakHeap 1 :=
+    Reachable.step (o := Obj.fiber .imm [] [⟨none, none, [.ref 1, .ref 2]⟩] none none none [] none) (e := ⟨true, 1⟩) r0 (by decide) (by decide) (by decide)
+  have r2 : Reachable weakHeap 2 :=
+    Reachable.step (o := Obj.fiber .imm [] [⟨none, none, [.ref 1, .ref 2]⟩] none none none [] none) (e := ⟨true, 2⟩) r0 (by decide) (by decide) (by decide)
+  have n4 : ¬ Reachable weakHeap 4 := fun r => by
+    have := reachable_subset weakHeap [0, 1, 2, 3, 5] (by decide) (by decide) 4 r
+    simp at this
+  have m1 := (mark_eq_reachable weakHeap Gen.GC.recursionGuard (by decide) 1).mpr r1
+  have m2 := (mark_eq_reachable weakHeap Gen.GC.recursionGuard (by decide) 2).mpr r2
+  have m4 : (mark Gen.GC.recursionGuard weakHeap).marked.contains 4 = false := by
+    by_cases c : (mark Gen.GC.recursionGuard weakHeap).marked.contains 4 = true
+    · exact absurd ((mark_eq_reachable weakHeap _ (by decide) 4).mp c) n4
+    · simpa using c
+  refine ⟨n4, collect_frees_unreachable _ _ (by decide) 4 n4, ?_⟩
+  have hg : weakHeap.get 1 = some (Obj.table true false [(.ref 2, .ref 3), (.ref 4, .ref 5)] none) := by decide
+  refine ⟨clearWeak (mark Gen.GC.recursionGuard weakHeap).marked (Obj.table true false [(.ref 2, .ref 3), (.ref 4, .ref 5)] none),
+    by rw [collect_get, hg]; simp only [m1, if_true], ?_⟩
+  simp [clearWeak, Obj.table, Val.ids, Val.edges, m2, m4]
+
+/-- a program that allocates, links, drops a root and observes: the hypotheses of `gc_transparent` are met by real runs -/
+example : run 1 [.alloc 3 [], .alloc 3 [.root 0], .store (.root 0) 0 (.root 1), .unroot 1, .emit (.field (.root 0) 0),
+    .same (.root 0) (.field (.root 0) 0)] (fun _ => false) 0 (Heap.ofList [] []) = [Obs.obj 3 0, Obs.same false] := by
+  decide
+
+/-! ### tie to the source: the generated mark-site table is the field list the model's constructors mirror -/
+
+/-- Every marking call of gc.c's `janet_mark_*` functions and of the gcmark / event callbacks (regenerated from the
+current source on every run).  A removed, added or re-routed mark line changes `Gen.GC.markSites` and breaks this. -/
+theorem markSites_as_modelled : Gen.GC.markSites = [
+  ("janet_mark_string", "janet_gc_mark", "janet_string_head(str)"),
+  ("janet_mark_buffer", "janet_gc_mark", "buffer"),
+  ("janet_mark_abstract", "janet_gc_mark", "janet_abstract_head(adata)"),
+  ("janet_mark_abstract", "gcmark-callback", "type"),
+  ("janet_mark_many", "janet_mark", "*values"),
+  ("janet_mark_keys", "janet_mark", "kvs->key"),
+  ("janet_mark_values", "janet_mark", "kvs->value"),
+  ("janet_mark_kvs", "janet_mark", "kvs->key"),
+  ("janet_mark_kvs", "janet_mark", "kvs->value"),
+  ("janet_mark_array", "janet_gc_mark", "array"),
+  ("janet_mark_array", "janet_mark_many", "array->data,array->count"),
+  ("janet_mark_table", "janet_gc_mark", "table"),
+  ("janet_mark_table", "janet_mark_values", "table->data,table->capacity"),
+  ("janet_mark_table", "janet_mark_keys", "table->data,table->capacity"),
+  ("janet_mark_table", "janet_mark_kvs", "table->data,table->capacity"),
+  ("janet_mark_table", "tail-loop", "table->proto"),
+  ("janet_mark_struct", "janet_gc_mark", "janet_struct_head(st)"),
+  ("janet_mark_struct", "janet_mark_kvs", "st,janet_struct_capacity(st)"),
+  ("janet_mark_struct", "tail-loop", "janet_struct_proto(st)"),
+  ("janet_mark_tuple", "janet_gc_mark", "janet_tuple_head(tuple)"),
+  ("janet_mark_tuple", "janet_mark_many", "tuple,janet_tuple_length(tuple)"),
+  ("janet_mark_funcenv", "janet_gc_mark", "env"),
+  ("janet_mark_funcenv", "janet_env_maybe_detach", "env"),
+  ("janet_mark_funcenv", "janet_mark_fiber", "env->as.fiber"),
+  ("janet_mark_funcenv", "janet_mark_many", "env->as.values,env->length"),
+  ("janet_mark_funcdef", "janet_gc_mark", "def"),
+  ("janet_mark_funcdef", "janet_mark_many", "def->constants,def->constants_length"),
+  ("janet_mark_funcdef", "janet_mark_funcdef", "def->defs[i]"),
+  ("janet_mark_funcdef", "janet_mark_string", "def->source"),
+  ("janet_mark_funcdef", "janet_mark_string", "def->name"),
+  ("janet_mark_funcdef", "janet_mark_string", "def->symbolmap[i].symbol"),
+  ("janet_mark_function", "janet_gc_mark", "func"),
+  ("janet_mark_function", "janet_mark_funcenv", "func->envs[i]"),
+  ("janet_mark_function", "janet_mark_funcdef", "func->def"),
+  ("janet_mark_fiber", "janet_gc_mark", "fiber"),
+  ("janet_mark_fiber", "janet_mark", "fiber->last_value"),
+  ("janet_mark_fiber", "janet_mark_many", "fiber->data+fiber->stackstart,fiber->stacktop-fiber->stackstart"),
+  ("janet_mark_fiber", "janet_mark_function", "frame->func"),
+  ("janet_mark_fiber", "janet_mark_funcenv", "frame->env"),
+  ("janet_mark_fiber", "janet_mark_many", "fiber->data+i,j-i"),
+  ("janet_mark_fiber", "janet_mark_table", "fiber->env"),
+  ("janet_mark_fiber", "janet_mark_abstract", "fiber->supervisor_channel"),
+  ("janet_mark_fiber", "janet_mark_abstract", "fiber->ev_stream"),
+  ("janet_mark_fiber", "ev-callback", "JANET_ASYNC_EVENT_MARK"),
+  ("janet_mark_fiber", "tail-loop", "fiber->child"),
+  ("janet_stream_mark", "janet_mark", "janet_wrap_fiber(rf)"),
+  ("janet_stream_mark", "janet_mark", "janet_wrap_fiber(wf)"),
+  ("janet_ev_mark", "janet_mark", "janet_wrap_fiber(tasks[i].fiber)"),
+  ("janet_ev_mark", "janet_mark", "tasks[i].value"),
+  ("janet_ev_mark", "janet_mark", "janet_wrap_fiber(tasks[i].fiber)"),
+  ("janet_ev_mark", "janet_mark", "tasks[i].value"),
+  ("janet_ev_mark", "janet_mark", "janet_wrap_fiber(tasks[i].fiber)"),
+  ("janet_ev_mark", "janet_mark", "tasks[i].value"),
+  ("janet_ev_mark", "janet_mark", "janet_wrap_fiber(janet_vm.tq[i].fiber)"),
+  ("janet_ev_mark", "janet_mark", "janet_wrap_fiber(janet_vm.tq[i].curr_fiber)"),
+  ("janet_chanat_mark_fq", "janet_mark", "janet_wrap_fiber(pending[i].fiber)"),
+  ("janet_chanat_mark_fq", "janet_mark", "janet_wrap_fiber(pending[i].fiber)"),
+  ("janet_chanat_mark_fq", "janet_mark", "janet_wrap_fiber(pending[i].fiber)"),
+  ("janet_chanat_mark", "janet_mark", "data[i]"),
+  ("janet_chanat_mark", "janet_mark", "data[i]"),
+  ("janet_chanat_mark", "janet_mark", "data[i]"),
+  ("parsermark", "janet_mark", "parser->args[i]"),
+  ("parsermark", "janet_mark", "janet_wrap_string((constuint8_t*)parser->error)"),
+  ("peg_mark", "janet_mark", "peg->constants[i]"),
+  ("janet_proc_mark", "janet_mark", "janet_wrap_abstract(proc->in)"),
+  ("janet_proc_mark", "janet_mark", "janet_wrap_abstract(proc->out)"),
+  ("janet_proc_mark", "janet_mark", "janet_wrap_abstract(proc->err)"),
+  ("ev_callback_read", "janet_mark", "janet_wrap_buffer(state->buf)"),
+  ("ev_callback_write", "janet_mark", "state->is_buffer?janet_wrap_buffer(state->src.buf):janet_wrap_string(state->src.str)"),
+  ("ev_callback_write", "janet_mark", "janet_wrap_abstract(state->dest_abst)")] := rfl
+
+/-- the weak-heap threshold of janet_gcalloc is the first weak memory type, and the depth limit is positive -/
+theorem gen_facts : Gen.GC.weakThreshold = Gen.GC.memTableWeakK ∧ 1 ≤ Gen.GC.recursionGuard ∧
+    Gen.GC.memTableWeakK < Gen.GC.memTableWeakV ∧ Gen.GC.memTableWeakV < Gen.GC.memTableWeakKV ∧
+    Gen.GC.memTableWeakKV < Gen.GC.memArrayWeak ∧ Gen.GC.memFuncDef < Gen.GC.memTableWeakK ∧
+    Gen.GC.markCases = ["JANET_STRING", "JANET_KEYWORD", "JANET_SYMBOL", "JANET_FUNCTION", "JANET_ARRAY", "JANET_TABLE",
+      "JANET_STRUCT", "JANET_TUPLE", "JANET_BUFFER", "JANET_FIBER", "JANET_ABSTRACT"] ∧
+    Gen.GC.liverefCases = ["JANET_ABSTRACT", "JANET_ARRAY", "JANET_BUFFER", "JANET_FIBER", "JANET_FUNCTION", "JANET_KEYWORD",
+      "JANET_STRING", "JANET_STRUCT", "JANET_SYMBOL", "JANET_TABLE", "JANET_TUPLE"] :=
+  ⟨by decide, by decide, by decide, by decide, by decide, by decide, rfl, rfl⟩
+
+end JanetModel.Props.C01
